@@ -6,7 +6,7 @@ From Coq Require Import String.
 From Coq Require Import List Arith Bool ZArith NArith.
 Import ListNotations.
 From YP Require Import Base.Str Term.Term Term.Show Term.Fast Unify.Unify Lang.Ast Comp.IR Comp.CompileClause
-  Sem.Machine Sem.RunSem Sem.Native Sem.NativeExc.
+  Sem.Machine Sem.RunSem Sem.ClauseSem Sem.Native Sem.NativeExc Sem.NativeRename.
 Local Open Scope string_scope.
 Local Open Scope list_scope.
 
@@ -59,6 +59,18 @@ Definition top_valuesE (w : worldE) (name : str) (args : list term) (s : st) : o
 Definition values_obs (o : option (list bool)) : obs :=
   match o with None => OL [] | Some l => OL [OL (map obool l)] end.
 
+(* the rows handed to the model for a Python predicate, next to NativeRename.row_of_src of the facts of the full program
+   (the rows the theorems about rows with variables speak about): the check requires them to be equal *)
+Definition frow_obs (r : frow) : obs := OL [onat (r_nv r); OL (map term_obs (r_vals r))].
+Definition rows_check (p_full : program) (nats : list nspec) : obs :=
+  OL (map (fun x =>
+        let k := match n_style x with
+                 | NFixed k => k
+                 | NVariadic => match n_rows x with r :: _ => length (r_vals r) | [] => 0 end
+                 end in
+        OL [OL (map frow_obs (n_rows x));
+            OL (map (fun c => frow_obs (row_of_src (c_args c))) (clauses_for p_full (n_name x) k))]) nats).
+
 Definition run_native (depth : nat) (p_rest p_full : program) (nats : list nspec)
     (dyn : list (str * nat * list frow)) (qs : list (str * list term * nat)) (limit : nat) : obs :=
   match compile_program p_rest, compile_program p_full with
@@ -72,6 +84,7 @@ Definition run_native (depth : nat) (p_rest p_full : program) (nats : list nspec
                      answersE_obs nq (nqueryE depth wc name args (st0 nq)) limit;
                      values_obs (top_valuesE w name args (st0 nq));
                      (* the same world with no predicate raising: an error there is not the predicate's exception *)
-                     answersE_obs nq (nqueryE depth w0 name args (st0 nq)) limit ]) qs)
+                     answersE_obs nq (nqueryE depth w0 name args (st0 nq)) limit ]) qs
+          ++ [OL [rows_check p_full nats]])
   | _, _ => otag "stuck" []
   end.
